@@ -294,6 +294,10 @@ class Model:
         return ("ret", None)
 
     # universes ---------------------------------------------------------------------
+    def raises_after(self, u, v):
+        """egsim.classes.RaisingUniverse: add_vertex records the vertex, then raises for tag 4."""
+        return self.objs[u].get("cls") == "RaisingUniverse" and self.tags.get(v) == 4
+
     def _join(self, u, v):
         if self.rejects(u, v):
             return
@@ -304,17 +308,22 @@ class Model:
 
     def m_uni_add(self, op):
         self._join(op["u"], op["v"])
+        if self.raises_after(op["u"], op["v"]):
+            return Raises()  # after the membership was recorded on both sides
         return ("ret", None)
 
     def m_v_add_uni(self, op):
         u, v = op["u"], op["v"]
         if self.rejects(u, v):
             return ("ret", None)
+        fails = self.raises_after(u, v) and v not in self.objs[u]["members"]
         # vertex side first, then the universe side
         if u not in self.objs[v]["universes"]:
             self.objs[v]["universes"].append(u)
         if v not in self.objs[u]["members"]:
             self.objs[u]["members"].append(v)
+        if fails:
+            return Raises()  # the override raised once both sides were recorded
         return ("ret", None)
 
     def m_uni_remove(self, op):
